@@ -41,7 +41,6 @@ META = {"C14": {
 
 NS = list(range(0, 32)) + [32, 33, 40, 64, 100]
 PER_TU = 5
-JOBS = int(os.environ.get("VERIF_JOBS", "8"))
 
 # ------------------------------------------------------------------------------------------------------------------
 # declarations
@@ -297,6 +296,15 @@ def whys(verdict):
     return res
 
 
+def ad_types(out):
+    """AD types of an accepted payload (TLC has already established that it is tiled)"""
+    res, i = [], 0
+    while i < len(out) and out[i] != 0:
+        res.append(out[i + 1])
+        i += out[i] + 1
+    return res
+
+
 def validate_and_report(c, traces, decl_of, counts):
     tcfg = os.path.join(vlib.SPEC, "AdvData", "Trace.cfg")
     verdicts = vlib.validate_parallel("AdvData", "AdvDataTrace.tla", tcfg, traces)
@@ -304,8 +312,12 @@ def validate_and_report(c, traces, decl_of, counts):
         evs = vlib.read_ndjson(tp)
         if v.events != len(evs):
             raise vlib.ToolFailure("trace %s: %d events validated, %d recorded" % (tp, v.events, len(evs)))
-        for e in evs:
+        for i, e in enumerate(evs, 1):
             counts[e["e"]] = counts.get(e["e"], 0) + 1
+            if e["e"] in ("adv", "sr") and i not in v.mismatch_lines:
+                for t in ad_types(e["out"]):        # statistics only (vacuity), not an oracle
+                    k = "%s:0x%02X" % (e["e"], t)
+                    counts[k] = counts.get(k, 0) + 1
         c.add_traces(sum(1 for e in evs if e["e"] == "Reset"), v.events)
         why = whys(v)
         cur = None
@@ -352,7 +364,7 @@ def run(c):
     decl_of = dict(enumerate(decls))
     groups = [list(decl_of.items())[i:i + PER_TU] for i in range(0, len(decls), PER_TU)]
     try:
-        with ThreadPoolExecutor(JOBS) as ex:
+        with ThreadPoolExecutor(vlib.jobs(12) if hasattr(vlib, 'jobs') else 8) as ex:
             exes = list(ex.map(lambda g: build_group(c, "g%d" % g[0], g[1]), enumerate(groups)))
     finally:
         mc.result()          # a failing model check is a tool failure (raised here)
@@ -362,7 +374,7 @@ def run(c):
         gi, g = job
         lines = ["%d %d %d" % (k, w, n) for k, _ in g for w in (0, 1) for n in NS]
         return run_script(exes[gi], "g%d" % gi, lines, c.build_dir)
-    with ThreadPoolExecutor(JOBS) as ex:
+    with ThreadPoolExecutor(vlib.jobs(12) if hasattr(vlib, 'jobs') else 8) as ex:
         res = list(ex.map(drive, enumerate(groups)))
     # few TLC runs (JVM start dominates): concatenate the per-unit traces, every one starts with a Reset event
     traces = []
@@ -377,7 +389,8 @@ def run(c):
     counts = {}
     validate_and_report(c, traces, decl_of, counts)
     c.extra["events_by_action"] = counts
-    for a in ("Reset", "adv", "sr"):
+    # every kind of event and every AD type the rules talk about occurs in accepted calls
+    for a in ("Reset", "adv", "sr") + tuple("adv:0x%02X" % t for t in (1, 2, 3, 6, 7, 8, 9, 0x12, 0x19)):
         if not counts.get(a):
             raise vlib.ToolFailure("vacuous: no %s event validated" % a)
     c.extra["declarations"] = len(decls)
